@@ -223,6 +223,11 @@ def gen_case(rng, pid, tier):
             ops.append(['stalefin' if r2.random() < 0.25 else 'finish', rng.randint(1, napps[0])])
         elif r < 0.54:
             ops.append(['presence', pick_srv(), rng.random() < 0.5])
+            r2 = random.Random(repr(rng.getstate()[1][:4]))
+            if r2.random() < 0.12:
+                # (side stream) an operator blacks a server out / clears it (`/blackedout.servers/<server>`): the
+                # scheduler only traces that - the server, its state and its instances stay as they are
+                ops.append(['blackout', pick_srv(), r2.random() < 0.7])
         elif r < 0.63:
             s = pick_srv()
             x = rng.random()
@@ -1560,6 +1565,21 @@ def monitor_c11(w, when):
     for srv, lst in sorted(by_srv.items()):
         s = m2.servers.get(srv)
         if s is None:
+            # the new master did not load this server.  By the stored records it should have: a server record with
+            # data whose parent bucket is defined (what `load_server` asks for) - and then what is recorded under
+            # it, with presence older than the record, is a healthy record that was dropped
+            srec0 = st.nodes.get('/servers/' + srv)
+            try:
+                sdata = json.loads(srec0.data.decode()) if srec0 is not None and srec0.data else None
+            except ValueError:
+                sdata = None
+            pc0 = presence.get(srv)
+            if isinstance(sdata, dict) and sdata and ('/buckets/' + str(sdata.get('parent'))) in st.nodes:
+                for app, d, ct in lst:
+                    if '/scheduled/' + app in st.nodes and app not in dbl and pc0 is not None and pc0 != 0 and pc0 <= ct:
+                        _hit(run, 'healthy-server-not-loaded', 'load_servers',
+                             '%s: %s is recorded on %s, whose record and bucket are defined; the new master has no '
+                             'such server' % (when, app, srv))
             continue
         sched = [(app, d, ct) for app, d, ct in lst if app in m2.cell.apps or '/scheduled/' + app in st.nodes]
         # "still offering the capacity, partition and traits of what is recorded on it"
@@ -2224,6 +2244,16 @@ def _apply(case, pid, run, w, op):
         return
     if k == 'standby':
         _park_standby(w)
+        return
+    if k == 'blackout':
+        path = '/blackedout.servers/' + sname(op[1])
+        if op[2] and path not in w.store.nodes:
+            if '/blackedout.servers' not in w.store.nodes:
+                w.admin.create('/blackedout.servers', b'')
+            w.admin.create(path, b'')
+            w.stats['server-blackout'] += 1
+        elif not op[2] and path in w.store.nodes:
+            w.zdel(path)
         return
     if k == 'restart':
         _restart(w, pid, 'restart')
